@@ -709,6 +709,11 @@ class TextGen(object):
             elif x < 0.66:
                 self.declare_const(self.fresh_global(), self.some_type())
             elif x < 0.72 and 'push-pop' not in self.off:
+                if r.random() < 0.15:
+                    # zero levels: a legal no-op
+                    self.cmds.append([r.choice(['push', 'pop']), '0'])
+                    self.feats.add('push-pop-0')
+                    continue
                 k = r.choice([1, 1, 2])
                 for _ in range(k):
                     self.saved.append(self.snapshot())
